@@ -40,6 +40,16 @@ std::mutex& TimeZoneMutex() {
   return *time_zone_mutex;
 }
 
+// Serializes the loading of zones that are not yet in time_zone_map, so that
+// cctz_extension::zone_info_source_factory is called serially and only once
+// per zone name (as zone_info_source.h promises), while lookups of zones
+// that are already loaded only need TimeZoneMutex(). It is recursive so that
+// a factory may itself call load_time_zone().
+std::recursive_mutex& TimeZoneLoadMutex() {
+  static std::recursive_mutex* load_mutex = new std::recursive_mutex;
+  return *load_mutex;
+}
+
 }  // namespace
 
 time_zone time_zone::Impl::UTC() {
@@ -68,7 +78,19 @@ bool time_zone::Impl::LoadTimeZone(const std::string& name, time_zone* tz) {
     }
   }
 
-  // Load the new time zone (outside the lock).
+  // Load the new time zone (outside the map lock, but one load at a time),
+  // unless another thread loaded it while we waited for our turn.
+  std::lock_guard<std::recursive_mutex> load_lock(TimeZoneLoadMutex());
+  {
+    std::lock_guard<std::mutex> lock(TimeZoneMutex());
+    if (time_zone_map != nullptr) {
+      TimeZoneImplByName::const_iterator itr = time_zone_map->find(name);
+      if (itr != time_zone_map->end()) {
+        *tz = time_zone(itr->second);
+        return itr->second != utc_impl;
+      }
+    }
+  }
   std::unique_ptr<const Impl> new_impl(new Impl(name));
 
   // Add the new time zone to the map.
